@@ -468,6 +468,44 @@ def sc_blocks_view(n, c, b, p):
     _expect(t, ("elem", "x", (b_ * c + p,)))
 
 
+def sc_arange(a, n, st, c, e):
+    """arange(a, a + n*st, st) in chunks of c: block starts via block ids delivered through the offsets array"""
+    _start()
+    sx.assume(c <= n)
+    sx.assume(e < n)
+    import numpy as np
+
+    out = _xp().arange(a, a + n * st, st, dtype=np.int64, chunks=(c,), spec=G.default_spec())
+    _declared_ok(out, (n,))
+    t, _ = _elem(out, (e,))
+    _expect(t, ("val", "arange", a + e * st))
+
+
+def sc_eye(n, c, k, e0, e1):
+    _start()
+    sx.assume(c <= n)
+    sx.assume(e0 < n)
+    sx.assume(e1 < n)
+    out = _xp().eye(sx.conc(n), k=sx.conc(k), chunks=(c, c), spec=G.default_spec())
+    _declared_ok(out, (n, n))
+    t, _ = _elem(out, (e0, e1))
+    sx.require(t[0] == "val", "eye-block-is-not-an-eye-or-zero-block", str(t))
+    sx.require(t[2] == sx.ite(e1 - e0 == k, 1, 0), "eye-diagonal-misplaced", f"out[{e0},{e1}] = {t[2]} (k={k})")
+
+
+def sc_reshape_route(n, m, c, e):
+    """reshape (n, m) -> (n*m,) with row chunks c and a single column chunk"""
+    _start()
+    sx.assume(c <= n)
+    x = G.stub_array("x", (n, m), (c, m))
+    n_, m_ = sx.conc(n), sx.conc(m)
+    out = _xp().reshape(x, (n_ * m_,))
+    _declared_ok(out, (n_ * m_,))
+    sx.assume(e < n_ * m_)
+    t, _ = _elem(out, (e,))
+    _expect(t, ("elem", "x", (e // m_, e % m_)))
+
+
 def sc_qr(n, m, c):
     """tall-and-skinny QR: x (n, m) with row chunks c and a single column chunk"""
     _start()
@@ -532,7 +570,6 @@ def sc_index_stride_full(n, c, st, p):
 EXTRA_SCENARIOS = {
     "index[::step]": (sc_index_stride_full, lambda N: [("n", 1, 4 * N), ("c", 1, N + 3), ("st", 2, 3), ("p", 0, 4 * N)]),
     "linalg.qr": (sc_qr, lambda N: [("n", 1, N + 2), ("m", 1, 3), ("c", 1, N + 2)]),
-    "reshape[2d->1d]": (sc_reshape_2d_to_1d, lambda N: [("n", 1, N), ("m", 1, 3), ("c", 1, N)]),
     "matmul": (sc_matmul, lambda N: [("n", 1, 4 if N <= 6 else 6), ("k", 1, 3), ("m", 1, 2), ("c", 1, 4 if N <= 6 else 6), ("ck", 1, 3)]),
     "argmax": (sc_argmax, lambda N: [("n", 1, N), ("c", 1, N), ("s", 2, 3)]),
 }
@@ -563,6 +600,9 @@ SCENARIOS = {
     "permute_dims": (sc_transpose, lambda N: [("n", 1, 4), ("m", 1, N), ("c", 1, 4), ("c2", 1, N), ("e", 0, N), ("e2", 0, 4)]),
     "broadcast_to": (sc_broadcast_to, lambda N: [("n", 1, N), ("c", 1, N), ("k", 0, 1), ("e", 0, N)]),
     "blocks[b]": (sc_blocks_view, lambda N: [("n", 1, N), ("c", 1, N), ("b", 0, N), ("p", 0, N)]),
+    "arange": (sc_arange, lambda N: [("a", -3, 3), ("n", 1, N), ("st", 1, 3), ("c", 1, N), ("e", 0, N)]),
+    "eye": (sc_eye, lambda N: [("n", 1, N), ("c", 1, N), ("k", -2, 2), ("e0", 0, N), ("e1", 0, N)]),
+    "reshape[2d->1d]": (sc_reshape_route, lambda N: [("n", 1, N), ("m", 1, 3), ("c", 1, N), ("e", 0, 3 * N)]),
 }
 
 
